@@ -54,7 +54,8 @@ def mean_edge_length(mesh : Mesh, n : int = None) -> float:
     """
     l = 0
     if n is None: n = len(mesh.edges)
-    for k in range(min(n, len(mesh.edges))):
+    n = min(n, len(mesh.edges))
+    for k in range(n):
         a,b = (Vec(mesh.vertices[u]) for u in mesh.edges[k])
         l += (b-a).norm()
     return l/n
@@ -78,8 +79,9 @@ def mean_face_area(mesh : SurfaceMesh, n : int = None) -> float:
     else:
         farea = face_area(mesh)
     if n is None: n = len(mesh.faces)
+    n = min(n, len(mesh.faces))
     res = 0
-    for k in range(min(n, len(mesh.faces))):
+    for k in range(n):
         res += farea[k]
     return res/n
 
@@ -102,8 +104,9 @@ def mean_cell_volume(mesh : VolumeMesh, n : int = None) -> float:
     else:
         cvol = cell_volume(mesh)
     if n is None: n = len(mesh.cells)
+    n = min(n, len(mesh.cells))
     res = 0
-    for k in range(min(n, len(mesh.cells))):
+    for k in range(n):
         res += cvol[k]
     return res/n
 
